@@ -433,11 +433,30 @@ Definition wf_handler (e : nat) (H : prog) : bool :=
   | _ => false
   end.
 
+(* statements between `defer e.Exit()` and the handler call that at most read through the
+   entry e (non-nil there): entry.Context()..., option switches, appends to the call options *)
+Fixpoint safe_pre (e : nat) (p : prog) : bool :=
+  match p with
+  | Other => true
+  | Deref e' => e =? e'
+  | Seq a b => safe_pre e a && safe_pre e b
+  | IfOpt _ a b => safe_pre e a && safe_pre e b
+  | _ => false
+  end.
+
+(* the handler part, preceded by any number of such statements *)
+Fixpoint wf_handler_pre (e : nat) (H : prog) : bool :=
+  wf_handler e H ||
+  match H with
+  | Seq a q => safe_pre e a && wf_handler_pre e q
+  | _ => false
+  end.
+
 (*   e, err := Entry(...); if err != nil { <blocked body> }; defer e.Exit(); <handler part> *)
 Definition wf_core (fb : bool) (p : prog) : bool :=
   match p with
   | Seq (Entry e err false) (Seq (IfBlocked err' B Other) (Seq (DeferExit e') H)) =>
-      (err =? err') && (e =? e') && wf_blocked fb B && wf_handler e H
+      (err =? err') && (e =? e') && wf_blocked fb B && wf_handler_pre e H
   | _ => false
   end.
 
@@ -449,4 +468,19 @@ Fixpoint wf_main (fb : bool) (p : prog) : bool :=
   | _ => false
   end.
 
-Definition wf_adapter (a : adapter) : bool := wf_main (a_fb a) (a_body a).
+(* statements without any modelled effect are dropped first (they may sit anywhere: between
+   the handler call and the error check, before the return, ...) *)
+Fixpoint simp (p : prog) : prog :=
+  match p with
+  | Seq a b =>
+      let a' := simp a in let b' := simp b in
+      if quiet a' then b' else if quiet b' then a' else Seq a' b'
+  | IfBlocked err a b => IfBlocked err (simp a) (simp b)
+  | IfFallback a b => IfFallback (simp a) (simp b)
+  | IfErr v a b => IfErr v (simp a) (simp b)
+  | IfOpt k a b => let a' := simp a in let b' := simp b in
+                   if quiet a' && quiet b' then Other else IfOpt k a' b'
+  | _ => p
+  end.
+
+Definition wf_adapter (a : adapter) : bool := wf_main (a_fb a) (simp (a_body a)).
